@@ -293,8 +293,13 @@ def gen_single_trace(
     config = gen_config(rng, kind=kind, **cfg_kw)
     dtype = rng.choice(param_dtypes)
     if dtype == "bfloat16":
-        # CPU eigh has no bf16 kernel: bf16 never is the preconditioner dtype here (DESIGN section 7)
         config["preconditioner_dtype"] = rng.choice(["float32", "float32", "float64"])
+    sv = config["preconditioner"]["solver"]
+    if sv["type"] in ("eigen", "eigh") and rng.random() < 0.08:
+        # CPU eigh has no bfloat16 kernel, so bfloat16 factor matrices only work through the double-precision retry
+        # (DESIGN section 7): the factors are kept in bfloat16, the decomposition runs in float64
+        sv["retry"] = True
+        config["preconditioner_dtype"] = "bfloat16"
     n_params = rng.choice([1, 1, 2, 2, 3, 3, 4, 5][: max(1, min(8, 2 * max_params - 2))])
     params = gen_params(rng, n_params, dtype)
     groups = gen_groups(rng, n_params, config)
